@@ -4,6 +4,7 @@ package main
 // materialisation into real sdk.Msg values.
 
 import (
+	"encoding/binary"
 	"encoding/hex"
 	"encoding/json"
 	"fmt"
@@ -23,6 +24,8 @@ import (
 	distrtypes "github.com/cosmos/cosmos-sdk/x/distribution/types"
 	crisistypes "github.com/cosmos/cosmos-sdk/x/crisis/types"
 	govv1 "github.com/cosmos/cosmos-sdk/x/gov/types/v1"
+	"github.com/cosmos/cosmos-sdk/x/group"
+	groupkeeper "github.com/cosmos/cosmos-sdk/x/group/keeper"
 	paramproposal "github.com/cosmos/cosmos-sdk/x/params/types/proposal"
 	upgradetypes "github.com/cosmos/cosmos-sdk/x/upgrade/types"
 	tmproto "github.com/cometbft/cometbft/proto/tendermint/types"
@@ -353,6 +356,16 @@ func (bc *BuildCtx) Build(s *MsgSpec) sdk.Msg {
 		return m
 	case "crisis.VerifyInvariant":
 		return &crisistypes.MsgVerifyInvariant{Sender: s.f("sender"), InvariantModuleName: s.f("module"), InvariantRoute: s.f("route")}
+	case "gov.SubmitSendEnabled":
+		// a governance proposal that switches plain transfers of one denomination off (or on again)
+		inner := &banktypes.MsgSetSendEnabled{Authority: sdk.AccAddress(authtypes.NewModuleAddress("gov")).String(),
+			SendEnabled: []*banktypes.SendEnabled{{Denom: s.f("denom"), Enabled: s.f("enabled") == "true"}}}
+		proposer, _ := sdk.AccAddressFromBech32(s.f("proposer"))
+		m, err := govv1.NewMsgSubmitProposal([]sdk.Msg{inner}, coins(s.Coins), proposer.String(), "", "send enabled", "switch")
+		if err != nil {
+			panic(err)
+		}
+		return m
 	case "gov.SubmitSpend":
 		// a governance proposal that spends from the community pool (to any address, the burn address included)
 		inner := &distrtypes.MsgCommunityPoolSpend{Authority: sdk.AccAddress(authtypes.NewModuleAddress("gov")).String(), Recipient: s.f("recipient"), Amount: coins(s.Coins2)}
@@ -405,6 +418,37 @@ func (bc *BuildCtx) Build(s *MsgSpec) sdk.Msg {
 		return g
 	case "authz.Revoke":
 		return &authz.MsgRevoke{Granter: s.f("granter"), Grantee: s.f("grantee"), MsgTypeUrl: s.f("url")}
+	case "group.CreateWithPolicy":
+		// a group of one (the admin, weight 1) with a threshold-1 decision policy: its proposals can be executed at once
+		dp := group.NewThresholdDecisionPolicy("1", time.Hour, 0)
+		m, err := group.NewMsgCreateGroupWithPolicy(s.f("admin"), []group.MemberRequest{{Address: s.f("admin"), Weight: "1"}}, "", "", false, dp)
+		if err != nil {
+			panic(err)
+		}
+		return m
+	case "group.Propose":
+		// a proposal of that group's policy account carrying custom messages (the policy account is their actor), executed
+		// right away (EXEC_TRY): x/group records the outcome of the execution - the error text included - in an event of
+		// the (successful) transaction
+		seq, _ := strconv.ParseUint(s.f("policy_seq"), 10, 64)
+		policy := GroupPolicyAddr(seq)
+		var inner []sdk.Msg
+		for i := range s.Inner {
+			in := s.Inner[i]
+			in.F = FMap{}
+			for k, v := range s.Inner[i].F {
+				if v == "@policy" {
+					v = policy
+				}
+				in.F[k] = v
+			}
+			inner = append(inner, bc.Build(&in))
+		}
+		m, err := group.NewMsgSubmitProposal(policy, []string{s.f("proposer")}, inner, "", group.Exec_EXEC_TRY, "t", "s")
+		if err != nil {
+			panic(err)
+		}
+		return m
 	case "authz.Exec":
 		var anys []*codectypes.Any
 		for i := range s.Inner {
@@ -454,4 +498,15 @@ func (f *FMap) UnmarshalJSON(b []byte) error {
 	}
 	*f = out
 	return nil
+}
+
+// GroupPolicyAddr: the account x/group derives for the n-th group policy created on a chain (n = 1, 2, ...).
+func GroupPolicyAddr(n uint64) string {
+	dk := make([]byte, 8)
+	binary.BigEndian.PutUint64(dk, n)
+	ac, err := authtypes.NewModuleCredential(group.ModuleName, []byte{groupkeeper.GroupPolicyTablePrefix}, dk)
+	if err != nil {
+		panic(err)
+	}
+	return sdk.AccAddress(ac.Address()).String()
 }
